@@ -1,1 +1,433 @@
-//! placeholder, filled in below
+//! Codec drivers (C03, C07): replay of TLC-generated cases into the real compress/decompress, and
+//! production-size families recorded as trace events.
+use crate::common::*;
+use falcon_rust::verif;
+use rand::{Rng, RngCore};
+use serde_json::{json, Value};
+use std::io::BufRead;
+use std::path::PathBuf;
+
+fn to_bytes(v: &Value) -> Vec<u8> {
+    v.as_array().unwrap().iter().map(|x| x.as_u64().unwrap() as u8).collect()
+}
+fn to_i16s(v: &Value) -> Vec<i16> {
+    v.as_array().unwrap().iter().map(|x| x.as_i64().unwrap() as i16).collect()
+}
+
+pub fn dec_outcome(x: &[u8], n: usize) -> (String, Vec<i16>, String) {
+    match guarded(|| verif::decompress(x, n)) {
+        Outcome::Ret(Some(v)) => ("some".into(), v, String::new()),
+        Outcome::Ret(None) => ("none".into(), vec![], String::new()),
+        Outcome::Panic(m) => ("panic".into(), vec![], m),
+    }
+}
+pub fn comp_outcome(v: &[i16], l: usize) -> (String, Vec<u8>, String) {
+    match guarded(|| verif::compress(v, l)) {
+        Outcome::Ret(Some(x)) => ("some".into(), x, String::new()),
+        Outcome::Ret(None) => ("none".into(), vec![], String::new()),
+        Outcome::Panic(m) => ("panic".into(), vec![], m),
+    }
+}
+
+pub fn dec_event(x: &[u8], n: usize, tag: &str) -> Value {
+    let (res, v, detail) = dec_outcome(x, n);
+    json!({"ev":"decompress","x":bytes_json(x),"n":n,"res":res,"v":i16s_json(&v),"tag":tag,"detail":detail})
+}
+pub fn comp_event(v: &[i16], l: usize, tag: &str) -> Value {
+    let (res, x, detail) = comp_outcome(v, l);
+    json!({"ev":"compress","v":i16s_json(v),"L":l,"res":res,"x":bytes_json(&x),"tag":tag,"detail":detail})
+}
+
+const DIGEST_MOD: i64 = 1000003;
+
+/// spec -> impl: run every TLC-generated record through the real code and compare with the
+/// result the specification demands.  Writes `<out>/replay_result.json`.
+pub fn replay_codec(args: &Args) {
+    let dir = PathBuf::from(args.get("--in").unwrap());
+    let out = PathBuf::from(args.get("--out").unwrap());
+    let mut cases = 0u64;
+    let mut accepted = 0u64;
+    let mut mismatches: Vec<Value> = vec![];
+    let mut samples: Vec<Value> = vec![];
+    let mut files: Vec<_> = std::fs::read_dir(&dir).unwrap().map(|e| e.unwrap().path()).collect();
+    files.sort();
+    for f in files {
+        if !f.file_name().unwrap().to_string_lossy().starts_with("gen_") {
+            continue;
+        }
+        let rd = std::io::BufReader::new(std::fs::File::open(&f).unwrap());
+        for line in rd.lines() {
+            let line = line.unwrap();
+            if line.trim().is_empty() {
+                continue;
+            }
+            let r: Value = serde_json::from_str(&line).unwrap();
+            match r["kind"].as_str().unwrap() {
+                "decompress" => {
+                    cases += 1;
+                    let x = to_bytes(&r["x"]);
+                    let n = r["n"].as_u64().unwrap() as usize;
+                    let (res, v, detail) = dec_outcome(&x, n);
+                    let want_ok = r["ok"].as_bool().unwrap();
+                    let want_v = to_i16s(&r["v"]);
+                    let good = if want_ok { res == "some" && v == want_v } else { res == "none" };
+                    if want_ok {
+                        accepted += 1;
+                        // the accepted vector must compress back to exactly x
+                        let (cres, cx, cdetail) = comp_outcome(&want_v, x.len());
+                        cases += 1;
+                        if !(cres == "some" && cx == x) {
+                            mismatches.push(json!({"case":{"kind":"compress","v":r["v"],"L":x.len(),"ok":true,"x":r["x"]},
+                                                   "code":{"res":cres,"x":bytes_json(&cx),"detail":cdetail}}));
+                        }
+                    }
+                    if !good {
+                        mismatches.push(json!({"case":r,"code":{"res":res,"v":i16s_json(&v),"detail":detail}}));
+                    } else if samples.len() < 3 && want_ok {
+                        samples.push(json!({"case":r,"code":{"res":res,"v":i16s_json(&v)}}));
+                    }
+                }
+                "compress" => {
+                    cases += 1;
+                    let v = to_i16s(&r["v"]);
+                    let l = r["L"].as_u64().unwrap() as usize;
+                    let (res, x, detail) = comp_outcome(&v, l);
+                    let want_ok = r["ok"].as_bool().unwrap();
+                    let good = if want_ok { res == "some" && x == to_bytes(&r["x"]) } else { res == "none" };
+                    if want_ok {
+                        accepted += 1;
+                    }
+                    if !good {
+                        mismatches.push(json!({"case":r,"code":{"res":res,"x":bytes_json(&x),"detail":detail}}));
+                    }
+                }
+                "digest" => {
+                    let first = r["first"].as_u64().unwrap() as u8;
+                    let l = r["L"].as_u64().unwrap() as usize;
+                    let per_n = r["per_n"].as_array().unwrap();
+                    for (ni, want) in per_n.iter().enumerate() {
+                        let n = ni + 1;
+                        let mut cnt = 0i64;
+                        let mut dig = 0i64;
+                        let mut panics: Vec<Vec<u8>> = vec![];
+                        let total = 1u64 << (8 * (l - 1));
+                        for t in 0..total {
+                            let mut x = vec![first];
+                            for k in (0..l - 1).rev() {
+                                x.push(((t >> (8 * k)) & 0xff) as u8);
+                            }
+                            cases += 1;
+                            let (res, v, _) = dec_outcome(&x, n);
+                            if res == "panic" {
+                                panics.push(x.clone());
+                            }
+                            if res == "some" {
+                                cnt += 1;
+                                let tail = x[1..].iter().fold(0i64, |a, &b| (a * 256 + b as i64) % DIGEST_MOD);
+                                let vh = v.iter().enumerate().fold(0i64, |a, (i, &c)| {
+                                    (a + (c as i64 + 20000) * (7 * (i as i64 + 1) + 1)) % DIGEST_MOD
+                                });
+                                dig = (dig + ((tail * 31 + vh) % DIGEST_MOD)) % DIGEST_MOD;
+                            }
+                        }
+                        accepted += cnt as u64;
+                        if want["cnt"].as_i64().unwrap() != cnt || want["dig"].as_i64().unwrap() != dig || !panics.is_empty() {
+                            mismatches.push(json!({"case":{"kind":"digest","first":first,"L":l,"n":n,"want":want},
+                                                   "code":{"cnt":cnt,"dig":dig,"panics":panics.iter().take(3).map(|p| bytes_json(p)).collect::<Vec<_>>()}}));
+                        }
+                    }
+                }
+                _ => {}
+            }
+        }
+    }
+    let res = json!({"cases":cases,"accepted":accepted,"mismatch_count":mismatches.len(),
+                     "mismatches":mismatches.into_iter().take(40).collect::<Vec<_>>(),"samples":samples});
+    std::fs::create_dir_all(&out).unwrap();
+    std::fs::write(out.join("replay_result.json"), serde_json::to_vec(&res).unwrap()).unwrap();
+    println!("cases {} accepted {} mismatches {}", cases, accepted, res["mismatch_count"]);
+}
+
+// ---------------------------------------------------------------- production-size families
+
+fn gaussian_vec(rng: &mut impl RngCore, n: usize, sigma: f64) -> Vec<i16> {
+    (0..n)
+        .map(|_| {
+            // Box-Muller
+            let u1: f64 = rng.gen::<f64>().max(1e-12);
+            let u2: f64 = rng.gen();
+            let z = (-2.0 * u1.ln()).sqrt() * (2.0 * std::f64::consts::PI * u2).cos();
+            (z * sigma).round() as i16
+        })
+        .collect()
+}
+
+fn total_bits(v: &[i16]) -> usize {
+    v.iter().map(|&c| 9 + ((c as i32).unsigned_abs() >> 7) as usize).sum()
+}
+
+/// A vector of n entries whose encoding has exactly `bits` bits (bits >= 9n), small entries
+/// plus a few large ones.
+fn vec_with_bits(rng: &mut impl RngCore, n: usize, bits: usize) -> Vec<i16> {
+    let mut v: Vec<i16> = (0..n).map(|_| rng.gen_range(-127..=127)).collect();
+    let mut extra = bits - 9 * n;
+    let mut i = 0;
+    while extra > 0 {
+        let r = extra.min(94).min(1 + rng.gen_range(0..94));
+        let low = rng.gen_range(0..128) as i32;
+        let mag = (r as i32) * 128 + low;
+        v[i % n] = if rng.gen() { mag as i16 } else { -(mag as i16) };
+        extra -= r;
+        i += 1;
+    }
+    assert_eq!(total_bits(&v), bits);
+    v
+}
+
+fn raw_body(coeffs: &[(bool, u32, usize)], len: usize, extra_bits: &[bool]) -> Option<Vec<u8>> {
+    let mut bits = vec![];
+    for &(s, low, run) in coeffs {
+        push_coeff_raw(&mut bits, s, low, run);
+    }
+    bits.extend_from_slice(extra_bits);
+    if bits.len() > len * 8 {
+        return None;
+    }
+    Some(bits_to_bytes(&bits, len))
+}
+
+/// Stretch the runs of the first coefficients so that coefficient `upto` starts at bit `start`.
+fn stretch(v: &mut [(bool, u32, usize)], upto: usize, start: usize) -> bool {
+    let base: usize = v[..upto].iter().map(|c| 9 + c.2).sum();
+    if start < base {
+        return false;
+    }
+    let mut left = start - base;
+    let mut i = 0;
+    while left > 0 {
+        if i >= upto {
+            return false;
+        }
+        let room = 94 - v[i].2;
+        let r = left.min(room);
+        v[i].2 += r;
+        left -= r;
+        i += 1;
+    }
+    true
+}
+
+pub fn codec_families(seed: u64, thorough: bool, out: &mut Shards) {
+    let mut rng = rng_for(seed, "c07");
+    for &(n, l) in &[(512usize, 625usize), (1024, 1239)] {
+        let total = 8 * l;
+        // (1) realistic vectors: compress, then decompress the result
+        for i in 0..(if thorough { 40 } else { 4 }) {
+            let sigma = if i % 4 == 3 { 400.0 } else { 165.0 };
+            let v = gaussian_vec(&mut rng, n, sigma);
+            out.emit(comp_event(&v, l, "gaussian"));
+            if let ("some", x, _) = { let o = comp_outcome(&v, l); (if o.0 == "some" { "some" } else { "x" }, o.1, o.2) } {
+                out.emit(dec_event(&x, n, "gaussian-roundtrip"));
+                // single bit flips of a valid string
+                for _ in 0..(if thorough { 6 } else { 2 }) {
+                    let mut y = x.clone();
+                    let bit = rng.gen_range(0..total);
+                    y[bit / 8] ^= 128 >> (bit % 8);
+                    out.emit(dec_event(&y, n, "bitflip"));
+                }
+            }
+        }
+        // (2) budget edge: encodings of exactly 8L-1, 8L, 8L+1 bits (and 8L-8, 8L+8)
+        for &d in &[-8i64, -1, 0, 1, 8] {
+            for _ in 0..(if thorough { 4 } else { 1 }) {
+                let v = vec_with_bits(&mut rng, n, (total as i64 + d) as usize);
+                out.emit(comp_event(&v, l, "budget-edge"));
+                if d <= 0 {
+                    let x = comp_outcome(&v, l).1;
+                    if !x.is_empty() {
+                        out.emit(dec_event(&x, n, "budget-edge-roundtrip"));
+                    }
+                }
+            }
+        }
+        // last coefficient large with an exact fit (the terminating 1 is the very last bit)
+        for &lastmag in &[127i32, 128, 896, 12159] {
+            let lastlen = 9 + (lastmag >> 7) as usize;
+            let mut v = vec_with_bits(&mut rng, n - 1, total - lastlen);
+            v.push(-(lastmag as i16));
+            out.emit(comp_event(&v, l, "exact-fit-large-last"));
+            let x = comp_outcome(&v, l).1;
+            if !x.is_empty() {
+                out.emit(dec_event(&x, n, "exact-fit-large-last-roundtrip"));
+            }
+        }
+        // extreme magnitudes
+        let mut v = vec![0i16; n];
+        for k in 0..40 {
+            v[k * 3] = if k % 2 == 0 { 12159 } else { -12159 };
+        }
+        out.emit(comp_event(&v, l, "extreme"));
+        let x = comp_outcome(&v, l).1;
+        if !x.is_empty() {
+            out.emit(dec_event(&x, n, "extreme-roundtrip"));
+        }
+        out.emit(comp_event(&vec![12159i16; n], l, "all-extreme"));
+        out.emit(comp_event(&[], l, "empty"));
+        out.emit(comp_event(&vec![0i16; n], l, "zeros"));
+        // (3) raw bodies: unary run of length k at the last / a middle / the first coefficient
+        let zero = (false, 0u32, 0usize);
+        let runs: Vec<usize> = if thorough {
+            (0..=130).chain([200, 254, 255, 256, 257, 300, 390]).collect()
+        } else {
+            vec![0, 1, 93, 94, 95, 96, 127, 128, 255, 256, 257, 390]
+        };
+        for &pos in &[n - 1, n / 2, 0] {
+            for &run in &runs {
+                for &(s, low) in &[(true, 0u32), (false, 127u32), (true, 1u32)] {
+                    if !thorough && low == 127 && run % 2 == 1 {
+                        continue;
+                    }
+                    let mut v = vec![zero; n];
+                    v[pos] = (s, low, run);
+                    if let Some(x) = raw_body(&v, l, &[]) {
+                        out.emit(dec_event(&x, n, "run-family"));
+                    }
+                }
+            }
+        }
+        // (4) minus zero at several positions; set padding bits
+        for &pos in &[0, 1, n / 2, n - 2, n - 1] {
+            let mut v = vec![zero; n];
+            v[pos] = (true, 0, 0);
+            out.emit(dec_event(&raw_body(&v, l, &[]).unwrap(), n, "minus-zero"));
+        }
+        let used = 9 * n;
+        let pads: Vec<usize> = if thorough { (0..24).chain([total - used - 1, total - used - 8, total - used - 9]).collect() } else { vec![0, 1, 7, 8, 9, total - used - 1, total - used - 8] };
+        for &p in &pads {
+            let mut extra = vec![false; p];
+            extra.push(true);
+            if let Some(x) = raw_body(&vec![zero; n], l, &extra) {
+                out.emit(dec_event(&x, n, "padding-bit"));
+            }
+        }
+        // (5) cursor alignment at the end of the buffer: coefficient j (last, or a non-final one)
+        // starting `back` bits before the end, for every back in 0..=24
+        let backs: Vec<usize> = (0..=(if thorough { 40 } else { 20 })).collect();
+        for &back in &backs {
+            for &(j, tag) in &[(n - 1, "last-starts-near-end"), (n - 2, "nonfinal-starts-near-end"), (n / 2, "middle-starts-near-end")] {
+                if total < back {
+                    continue;
+                }
+                for &(s, low, run, term) in &[(false, 0u32, 0usize, true), (true, 5, 0, true), (false, 0, 3, true), (false, 0, 0, false)] {
+                    let mut v = vec![zero; j];
+                    if !stretch(&mut v, j, total - back) {
+                        continue;
+                    }
+                    let mut bits = vec![];
+                    for &(s, low, run) in &v {
+                        push_coeff_raw(&mut bits, s, low, run);
+                    }
+                    // the coefficient under test, truncated by the buffer end
+                    let mut cb = vec![];
+                    cb.push(s);
+                    push_field(&mut cb, low, 7);
+                    cb.extend(std::iter::repeat(false).take(run));
+                    if term {
+                        cb.push(true);
+                    }
+                    // remaining coefficients (if any) as zeros
+                    for _ in j + 1..n {
+                        push_coeff_raw(&mut cb, false, 0, 0);
+                    }
+                    bits.extend(cb);
+                    bits.truncate(total);
+                    out.emit(dec_event(&bits_to_bytes(&bits, l), n, tag));
+                }
+            }
+        }
+        // (6) too few coefficients present / n mismatch
+        out.emit(dec_event(&raw_body(&vec![zero; n - 1], l, &[]).unwrap(), n, "one-short"));
+        out.emit(dec_event(&raw_body(&vec![zero; n], l, &[]).unwrap(), n - 1, "n-minus-one"));
+        out.emit(dec_event(&vec![0u8; l], n, "all-zero-bytes"));
+        out.emit(dec_event(&vec![255u8; l], n, "all-ff-bytes"));
+        out.emit(dec_event(&[], n, "empty-buffer"));
+        out.emit(dec_event(&[0x00, 0x80], 1, "tiny"));
+        // (7) random strings
+        for _ in 0..(if thorough { 40 } else { 4 }) {
+            let mut x = vec![0u8; l];
+            rng.fill_bytes(&mut x);
+            out.emit(dec_event(&x, n, "random"));
+        }
+    }
+    // small odd sizes through the same wrappers (n = 1, 2, 3, 7; short buffers)
+    for &(n, l) in &[(1usize, 2usize), (1, 13), (2, 3), (3, 4), (7, 9), (7, 30)] {
+        for _ in 0..(if thorough { 60 } else { 10 }) {
+            let mut x = vec![0u8; l];
+            rng.fill_bytes(&mut x);
+            // bias towards decodable: clear some bits
+            for b in x.iter_mut() {
+                if rng.gen::<bool>() {
+                    *b &= rng.gen::<u8>();
+                }
+            }
+            out.emit(dec_event(&x, n, "small-random"));
+        }
+    }
+}
+
+/// Native volume run: random / mutated strings through decompress (and compress on acceptance);
+/// only a summary event is recorded, plus full events for every anomaly.
+pub fn codec_bulk(seed: u64, cases: u64, out: &mut Shards) {
+    let mut rng = rng_for(seed, "c07-bulk");
+    let mut panics = 0u64;
+    let mut noncanon = 0u64;
+    let mut accepted = 0u64;
+    for i in 0..cases {
+        let (n, l) = if i % 2 == 0 { (512usize, 625usize) } else { (1024, 1239) };
+        let x: Vec<u8> = if i % 3 == 0 {
+            let mut x = vec![0u8; l];
+            rng.fill_bytes(&mut x);
+            x
+        } else {
+            // a valid encoding with a few random bit flips near interesting places
+            let v = gaussian_vec(&mut rng, n, 165.0);
+            let mut x = match verif::compress(&v, l) {
+                Some(x) => x,
+                None => continue,
+            };
+            let flips = rng.gen_range(0..3);
+            for _ in 0..flips {
+                let bit = if rng.gen::<bool>() { rng.gen_range(0..8 * l) } else { 8 * l - 1 - rng.gen_range(0..600) };
+                x[bit / 8] ^= 128 >> (bit % 8);
+            }
+            x
+        };
+        let (res, v, _) = dec_outcome(&x, n);
+        if res == "panic" {
+            panics += 1;
+            if panics <= 5 {
+                out.emit(dec_event(&x, n, "bulk-panic"));
+            }
+        } else if res == "some" {
+            accepted += 1;
+            let (cres, cx, _) = comp_outcome(&v, l);
+            if cres != "some" || cx != x {
+                noncanon += 1;
+                if noncanon <= 5 {
+                    out.emit(dec_event(&x, n, "bulk-noncanonical"));
+                    out.emit(comp_event(&v, l, "bulk-noncanonical"));
+                }
+            }
+        }
+    }
+    out.emit(json!({"ev":"bulk","cases":cases,"panics":panics,"noncanonical":noncanon,"accepted":accepted,"tag":"bulk"}));
+}
+
+pub fn c07(args: &Args) {
+    let seed = args.num("--seed", 1);
+    let dir = PathBuf::from(args.get_or("--out", "work/c07"));
+    let mut out = Shards::create(&dir, "codec", args.num("--shards", 12) as usize);
+    codec_families(seed, args.thorough(), &mut out);
+    codec_bulk(seed, args.num("--bulk", 20000), &mut out);
+    println!("events {}", out.finish());
+}
